@@ -135,6 +135,9 @@ if __name__ == "__main__":
     elif cmd == "import4":
         for pid in sys.argv[2:]:
             do_import(pid, ("G", "H"), base="/tmp/wt4")
+    elif cmd == "import6":
+        for pid in sys.argv[2:]:
+            do_import(pid, ("K", "L"), base="/tmp/wt6")
     elif cmd == "import5":
         for pid in sys.argv[2:]:
             do_import(pid, ("I", "J"), base="/tmp/wt5")
